@@ -345,12 +345,16 @@ pub open spec fn opt_unique(u: bool, rows: Seq<Context>) -> Seq<Context> { if u 
 pub open spec fn opt_group(g: Option<Option<String>>, rows: Seq<Context>) -> Seq<Context> {
     match g { Some(Some(s)) => seq![grouped_row(getter_of(s@), Seq::empty(), rows)], Some(None) => seq![merged_row(Seq::empty(), rows)], None => rows }
 }
+// the selection names in the order given: what reaches the printer as titles (behind whatever came before them)
+pub open spec fn names_of(texts: Seq<String>) -> Seq<String> { Seq::new(texts.len(), |i: int| select_name_of(texts[i]@)) }
 pub open spec fn take_of(t: Option<u64>) -> Option<nat> { match t { Some(l) => Some(l as nat), None => None } }
 pub open spec fn cap_spec(skip: u64, take: Option<u64>) -> Option<nat> { match take { Some(t) => Some((skip + t) as nat), None => None } }
 
 // r is the documented composition in front of the eager printer p
 pub open spec fn is_pipeline_of(r: Box<dyn Process>, p: Box<dyn Process>, cli: Cli, v: Map<String, JsonValue>, m: Map<String, Rc<dyn Get>>) -> bool {
-    p.eager() && p.log() == r.log() && forall|rows: Seq<Context>| #[trigger] r.fut(rows) == p.fut(cli.pipeline(cli.no_set(), v, m, rows))
+    &&& p.eager() && p.log() == r.log() && forall|rows: Seq<Context>| #[trigger] r.fut(rows) == p.fut(cli.pipeline(cli.no_set(), v, m, rows))
+    // ... and it stays that composition when it is started: the printer is started with the selection names (none behind --group-by / --merge)
+    &&& forall|t: Seq<String>, rows: Seq<Context>| #[trigger] r.sfut(t, rows) == p.sfut(cli.titles(t), cli.pipeline(cli.no_set(), v, m, rows))
 }
 impl<S: Read> Master<S> {
     pub closed spec fn cli_spec(&self) -> &Cli { &self.cli }
@@ -377,6 +381,7 @@ impl Cli {
                                     presets(none_set, v, m, rows))))))))
     }
     pub closed spec fn no_set(&self) -> bool { self.set@.len() == 0 }
+    pub closed spec fn titles(&self, t: Seq<String>) -> Seq<String> { if self.group_by is Some { Seq::empty() } else { t.add(names_of(self.choose@)) } }
     pub closed spec fn no_overflow(&self) -> bool { self.take matches Some(t) ==> self.skip + t <= u64::MAX }
 }
 
@@ -386,6 +391,8 @@ impl Cli {
 // what Process::start guarantees about the started chain `s` of an assembled chain `q`
 pub open spec fn started_from(q: Box<dyn Process>, s: Box<dyn Process>) -> bool {
     s.inv() && is_prefix(q.log(), s.log()) && (q.eager() ==> s.eager()) && s.must_break() == q.must_break()
+    // the started chain computes what the assembled chain promised for an empty list of titles (Process::start, clause start.fut)
+    && forall|rows: Seq<Context>| #[trigger] s.fut(rows) == q.sfut(Seq::empty(), rows)
 }
 impl<S: Read> Master<S> {
 //@@ slice go.assemble = src/lib.rs :: impl<S: Read> Master<S> :: fn go
@@ -429,10 +436,16 @@ impl<S: Read> Master<S> {
         let ghost cli = self.cli;
 //@@ before "process = Limiter::create_process(self.cli.skip, self.cli.take, process);"
         let ghost grp = process;
-        proof { assert forall|rows: Seq<Context>| #[trigger] grp.fut(rows) == p0.fut(opt_group(cli.group_by, rows)) by {} }
+        proof {
+            assert forall|rows: Seq<Context>| #[trigger] grp.fut(rows) == p0.fut(opt_group(cli.group_by, rows)) by {}
+            assert forall|t: Seq<String>, rows: Seq<Context>| #[trigger] grp.sfut(t, rows) == p0.sfut(if cli.group_by is Some { Seq::empty() } else { t }, opt_group(cli.group_by, rows)) by {}
+        }
 //@@ after "process = Limiter::create_process(self.cli.skip, self.cli.take, process);"
         let ghost lim = process;
-        proof { assert forall|rows: Seq<Context>| #[trigger] lim.fut(rows) == p0.fut(opt_group(cli.group_by, window(cli.skip as nat, take_of(cli.take), rows))) by {} }
+        proof {
+            assert forall|rows: Seq<Context>| #[trigger] lim.fut(rows) == p0.fut(opt_group(cli.group_by, window(cli.skip as nat, take_of(cli.take), rows))) by {}
+            assert forall|t: Seq<String>, rows: Seq<Context>| #[trigger] lim.sfut(t, rows) == grp.sfut(t, window(cli.skip as nat, take_of(cli.take), rows)) by {}
+        }
 //@@ loop 1 iter it
             invariant
                 process.inv(), process.log() == p0.log(), self.cli == cli, cli.no_overflow(),
@@ -441,6 +454,7 @@ impl<S: Read> Master<S> {
                 0 <= it.index@ <= cli.sort_by@.len(), it.seq().len() == cli.sort_by@.len(),
                 forall|j: int| 0 <= j < it.seq().len() ==> *(#[trigger] it.seq()[j]) == cli.sort_by@[j],
                 forall|rows: Seq<Context>| #[trigger] process.fut(rows) == lim.fut(sorters_spec(cli.sort_by@.subrange(0, it.index@), cap_spec(cli.skip, cli.take), rows)),
+                forall|t: Seq<String>, rows: Seq<Context>| #[trigger] process.sfut(t, rows) == lim.sfut(t, sorters_spec(cli.sort_by@.subrange(0, it.index@), cap_spec(cli.skip, cli.take), rows)),
 //@@ before "let sorter = Sorter::from_str(sorter)?;"
             let ghost prev = process;
             proof {
@@ -453,7 +467,10 @@ impl<S: Read> Master<S> {
         proof { assert(cli.sort_by@.subrange(0, cli.sort_by@.len() as int) =~= cli.sort_by@); }
 //@@ before "for selection in self.cli.choose.iter().rev() {"
         let ghost unq = process;
-        proof { assert forall|rows: Seq<Context>| #[trigger] unq.fut(rows) == srt.fut(opt_unique(cli.unique, rows)) by {} }
+        proof {
+            assert forall|rows: Seq<Context>| #[trigger] unq.fut(rows) == srt.fut(opt_unique(cli.unique, rows)) by {}
+            assert forall|t: Seq<String>, rows: Seq<Context>| #[trigger] unq.sfut(t, rows) == srt.sfut(t, opt_unique(cli.unique, rows)) by {}
+        }
 //@@ loop 2 iter it
             invariant
                 process.inv(), process.log() == p0.log(), self.cli == cli,
@@ -461,19 +478,24 @@ impl<S: Read> Master<S> {
                 forall|j: int| 0 <= j < it.seq().len() ==> *(#[trigger] it.seq()[j]) == cli.choose@[cli.choose@.len() - 1 - j],
                 // selections n-i .. n-1 are in place (built back to front)
                 forall|rows: Seq<Context>| #[trigger] process.fut(rows) == unq.fut(selects_spec(cli.choose@.subrange(cli.choose@.len() - it.index@, cli.choose@.len() as int), rows)),
+                forall|t: Seq<String>, rows: Seq<Context>| #[trigger] process.sfut(t, rows) == unq.sfut(t.add(names_of(cli.choose@.subrange(cli.choose@.len() - it.index@, cli.choose@.len() as int))), selects_spec(cli.choose@.subrange(cli.choose@.len() - it.index@, cli.choose@.len() as int), rows)),
 //@@ before "let selection = Selection::from_str(selection)?;"
             proof {
                 let n = cli.choose@.len() as int;
                 let t = cli.choose@.subrange(n - it.index@ - 1, n);
                 assert(tail_s(t) =~= cli.choose@.subrange(n - it.index@, n));
                 assert(t[0] == cli.choose@[n - 1 - it.index@]);
+                assert forall|tt: Seq<String>| tt.push(select_name_of(t[0]@)).add(names_of(tail_s(t))) =~= #[trigger] tt.add(names_of(t)) by {}
             }
 //@@ after-loop 2
         let ghost sel = process;
         proof { assert(cli.choose@.subrange(0, cli.choose@.len() as int) =~= cli.choose@); }
 //@@ before "process = self.cli.set.create_process(process)?;"
         let ghost spl = process;
-        proof { assert forall|rows: Seq<Context>| #[trigger] spl.fut(rows) == sel.fut(opt_filter(cli.filter, opt_split(cli.break_by, rows))) by {} }
+        proof {
+            assert forall|rows: Seq<Context>| #[trigger] spl.fut(rows) == sel.fut(opt_filter(cli.filter, opt_split(cli.break_by, rows))) by {}
+            assert forall|t: Seq<String>, rows: Seq<Context>| #[trigger] spl.sfut(t, rows) == sel.sfut(t, opt_filter(cli.filter, opt_split(cli.break_by, rows))) by {}
+        }
 //@@ after "process = self.cli.set.create_process(process)?;"
         proof {
             let none = cli.set@.len() == 0;
@@ -482,6 +504,10 @@ impl<S: Read> Master<S> {
             assert forall|rows: Seq<Context>| #[trigger] process.fut(rows) == p0.fut(cli.pipeline(cli.no_set(), v, m, rows)) by {
                 let r1 = presets(none, v, m, rows);
                 assert(process.fut(rows) == spl.fut(r1));
+            }
+            assert forall|t: Seq<String>, rows: Seq<Context>| #[trigger] process.sfut(t, rows) == p0.sfut(cli.titles(t), cli.pipeline(cli.no_set(), v, m, rows)) by {
+                let r1 = presets(none, v, m, rows);
+                assert(process.sfut(t, rows) == spl.sfut(t, r1));
             }
             assert(is_pipeline_of(process, p0, cli, v, m));
         }
